@@ -43,6 +43,7 @@ impl Report {
             let mut c = content.clone();
             if let Value::Object(o) = &mut c {
                 o.insert("property".into(), json!(self.property));
+                o.insert("tier".into(), json!(self.tier));
                 o.insert("description".into(), json!(desc));
             }
             let _ = std::fs::write(&path, serde_json::to_string_pretty(&c).unwrap());
